@@ -20,11 +20,12 @@ Lean model of the pinned diff (`carriesChild`) says whether this is finding F5 (
   (`FlatTree.deserialize`), give the tree they encoded at the old position — exactly the same `SNode` when the old tree was
   canonical (every site evaluated, in layout order), hence `Core.eval` of every expression from it is the same (functional
   determinism); and for every conforming tree (sites not yet evaluated, any cell order) a tree with the same flat
-  words, hence the same outputs for every sequence of calls of the voice (`FlatTree.treeRun`, the evaluator's per-site state
-  operations), all run lengths.
-PARTIAL: that `eval` of a voice's body performs exactly the per-site operations of its published layout is mirgen's
-bookkeeping (judged by C05's trace checker on the real VM), not proved; so for NON-canonical trees the last step is proved
-for the tree operations, not for `eval` of an arbitrary body.
+  words, hence (a) the same outputs for every sequence of calls of the voice seen as per-site state operations
+  (`FlatTree.treeRun`) and (b) — `C05_eval_respects_agreement` — the same returned values of the reference evaluator
+  `Core.eval` on the voice's body, sample after sample, all run lengths (`FlatTree.instRun`), for every body whose stateful
+  sites are covered by the voice's labelled layout.
+PARTIAL: the runtimes themselves are corresponded, not modelled; that the voice's published layout covers its body in the
+sense of `FlatTree.Covers` is the compiler's (mirgen's) job and is a hypothesis here (judged by C05's trace checker on the real VM).
 -/
 namespace Mimium.Migration
 open Mimium.StateTree
@@ -70,7 +71,9 @@ open Mimium.FlatTree Mimium.Core in
 voice's state tree `st` under the voice's labelled layout, and let the plan carry that range to `dstOff`.  Then the
 tree `st'` read back from the migrated storage at `dstOff` (1) has the same flat words as `st`, and therefore
 produces the same outputs as `st` for every sequence of calls of the voice with whatever operands (any run length);
-(2) if `st` is canonical, `st' = st`, so every evaluation from it is the evaluation from `st`. -/
+(2) if `st` is canonical, `st' = st`, so every evaluation from it is the evaluation from `st`;
+(3) if the `self` values of `st` have their declared shapes, the reference evaluator returns, for every body covered by
+the voice's layout, the same values from `st'` as from `st`, sample after sample (any run length, any inputs). -/
 theorem C07_carried_words_same_future (o n : Sk) (old : List Nat) (srcOff dstOff : Nat) (lay : LNode) (st : SNode)
     (hl : lay.Ok) (hb : dstOff + lay.size ≤ n.size)
     (h : carriesRange (takeDiff o n) srcOff dstOff lay.size = true)
@@ -80,13 +83,15 @@ theorem C07_carried_words_same_future (o n : Sk) (old : List Nat) (srcOff dstOff
       ∀ pays : List NPay, (∀ p ∈ pays, NPayOk lay p) → treeRun lay pays st' = treeRun lay pays st) ∧
     (Canon lay st → st' = st ∧
       ∀ (fuel : Nat) (P : Prog) (rt : Rt) (env : Env) (e : Expr) (σ : Store),
-        eval fuel P rt env e σ st' = eval fuel P rt env e σ st) := by
+        eval fuel P rt env e σ st' = eval fuel P rt env e σ st) ∧
+    (ConformsS lay st → ∀ (fuel : Nat) (P : Prog) (body : Expr) (samples : List (Rt × Env × Store)),
+      Covers P lay.cells body → instRun fuel P lay.self body samples st' = instRun fuel P lay.self body samples st) := by
   intro st'
   have hst' : st' = deserialize lay (serialize lay st) := by
     simp only [st', (C07_carried_words_same_state o n old srcOff dstOff lay hb h).1, hold]
   have hlen : (serialize lay st).length = lay.sk.size := C05_serialize_size lay st hc
   have hr := C05_serialize_deserialize lay (serialize lay st) hl hlen
-  refine ⟨⟨?_, ?_, ?_⟩, ?_⟩
+  refine ⟨⟨?_, ?_, ?_⟩, ?_, ?_⟩
   · rw [hst']; exact hr.1
   · rw [hst']; exact hr.2.2
   · intro pays hp
@@ -95,6 +100,10 @@ theorem C07_carried_words_same_future (o n : Sk) (old : List Nat) (srcOff dstOff
   · intro hcan
     have : st' = st := by rw [hst']; exact C05_deserialize_serialize lay st hl hcan
     exact ⟨this, fun fuel P rt env e σ => by rw [this]⟩
+  · intro hcs fuel P body samples hcov
+    rw [hst']
+    exact C05_same_words_same_eval_future fuel P lay body samples _ st hl hcov
+      (canon_conformsS lay _ hl hr.2.1) hcs hr.1
 
 /-- words that no patch covers are zero after the VM's migration: new sites start from zero -/
 theorem C07_new_cells_start_from_zero (o n : Sk) (old : List Nat) (k : Nat) (hk : k < n.size)
@@ -138,12 +147,12 @@ open Mimium.FlatTree Mimium.Core in
 example :
     let lay : LNode := ⟨none, [.mem 0, .child 1 (some .num) [.mem 0]]⟩
     let st : SNode := .mk none [(0, .mem 5), (1, .child (.mk (some (.num 6)) [(0, .mem 7)]))]
-    lay.Ok ∧ Canon lay st ∧ Conforms lay st := by
+    lay.Ok ∧ Canon lay st ∧ Conforms lay st ∧ ConformsS lay st := by
   have hl : LNode.Ok ⟨none, [.mem 0, .child 1 (some .num) [.mem 0]]⟩ := by
     simp [LNode.Ok, LayOkL, LayOk, sitesOf, LCell.site]
   have hc : Canon ⟨none, [.mem 0, .child 1 (some .num) [.mem 0]]⟩
       (.mk none [(0, .mem 5), (1, .child (.mk (some (.num 6)) [(0, .mem 7)]))]) := by
     simp [Canon, CanonSelf, CanonCells, CanonCell, SNode.selfv, SNode.cells, HasShape]
-  exact ⟨hl, hc, canon_conforms _ _ hl hc⟩
+  exact ⟨hl, hc, canon_conforms _ _ hl hc, canon_conformsS _ _ hl hc⟩
 
 end Mimium.Migration
